@@ -24,6 +24,18 @@ theorem C16_inv (t : Elem) (op : Op) (h : t.Inv = true) : (applyOp t op).1.Inv =
   | setMultiple path => exact Inv_modifyAt path _ (by intro e; simp) (fun e he => Inv_of_children_eq (by simp) he) t h
   | setText path => exact Inv_modifyAt path _ (by intro e; simp) (fun e he => Inv_of_children_eq (by simp) he) t h
   | get path name => exact h
+  | move src name dst =>
+    simp only [applyOp]
+    split
+    · exact h
+    · rename_i c hc
+      obtain ⟨e, he, hg⟩ : ∃ e, elemAt src t = some e ∧ getChild e.children name = some c := by
+        cases hs : elemAt src t with
+        | none => rw [hs] at hc; cases hc
+        | some e => rw [hs] at hc; exact ⟨e, rfl, hc⟩
+      have hcinv : c.2.Inv = true := ((Inv_iff e).mp (Inv_elemAt src t e h he)).2 c (getChild_some_mem hg)
+      exact Inv_modifyAt dst _ (by intro e; simp) (fun e he => Inv_addChild c.2 e hcinv he) _
+        (Inv_modifyAt src _ (by intro e; simp) (Inv_remove name) t h)
 
 /-- every tree reachable from `Element::new` by any finite sequence of operations has unique child names everywhere -/
 theorem C16_inv_seq (name : Name) (attrs : List Name) (ops : List Op) :
